@@ -113,7 +113,11 @@ XHEAD = '<?xml version="1.0" encoding="UTF-8"?><definitions namespace="ns1" name
 
 def model_xml(m, rng):
     parts = [XHEAD]
-    for tid, T in m['D']:
+    # the document order of the item definitions is irrelevant: they are written in a random order, so that references point forwards as often as
+    # backwards (seeded change C11_j: types were resolved while only the definitions read so far were known)
+    ds = list(m['D'])
+    rng.shuffle(ds)
+    for tid, T in ds:
         parts.append(idef_xml('itemDefinition', 't%d' % tid, T, rng))
     for i, (r, _) in enumerate(m['in']):
         parts.append('<inputData name="x%d" id="i%d"><variable name="x%d"%s/></inputData>' % (i, i, i, tref_attr(r)))
@@ -479,12 +483,19 @@ def build_plan(ctx):
             if v[0] == 'c':
                 es = list(v[1])
                 must += [('l', (('c', tuple((kk, None) for kk, _ in es)),)), ('l', (('c', tuple(sorted(es + [(5, ('a', 1, 1))]))),))]
+                # one component of another type than declared (a boolean where a number, string, list, context or referenced type is declared, a number
+                # for a boolean): the result does not conform and is null, whichever component it is
+                for ix in sorted(set([0, len(es) - 1])):
+                    bad = ('a', 1, 7) if (es[ix][1] is not None and es[ix][1][0] == 'a' and es[ix][1][1] == 2) else ('a', 2, 1)
+                    must.append(('c', tuple((kk, bad if i == ix else x) for i, (kk, x) in enumerate(es))))
         for p in rng.sample(range(8), 3):
             vals += [('a', p, 1), ('l', (('a', p, 1),))]
         vals = dedup(vals + must)
         if len(vals) > nvals:
             rest = [x for x in vals[4:] if x not in must]
-            pick = [x for x in must if x in vals[4:]][:1 + (len(must) > 1 and rng.random() < 0.5)]
+            pick = [x for x in must if x in vals[4:]]
+            rng.shuffle(pick)
+            pick = pick[:2 + (len(pick) > 2 and rng.random() < 0.5)]
             vals = vals[:4] + pick + rng.sample(rest, max(0, nvals - 4 - len(pick)))
         plan.cur['out'].append((r, vals))
 
